@@ -23,7 +23,7 @@ RULE = ("random pipelines (subset of the 10 groups, 1-3 models per group, random
 ASSUMPTIONS = ["probe models stand for arbitrary models: ordering does not depend on what a model does",
                "deprecated entry points (exposure_mode etc.) are not driven"]
 REQUIRED_COUNTERS = ["probe_events", "m2_model_calls", "runs_exposure", "runs_observation",
-                     "runs_observation_dask", "runs_calibration", "calibration_evaluations_checked", "yaml_loaded",
+                     "runs_observation_dask", "runs_calibration", "runs_history", "calibration_evaluations_checked", "yaml_loaded",
                      "debug_nodes_checked"]
 TIMEOUT = {"quick": 600, "thorough": 3000}
 
@@ -357,10 +357,65 @@ def run_calibration_case(rec, ctx, index, rng):
     rec.case(sig, True, sample=case)
 
 
+def run_history_case(rec, ctx, index, rng):
+    """One pipeline OBJECT run several times; enabled flags and arguments are changed between the
+    runs (attribute, Processor.set) and the object is iterated / printed in between."""
+    import pyxel
+    from pyxel.exposure import Exposure, Readout
+    from pyxel.pipelines import Processor
+
+    n_steps = rng.randint(1, 2)
+    pspec = rand_pipeline(rng, force_image=n_steps > 1)
+    pipe = build.make_pipeline(pspec)
+    detector = build.make_detector(build.default_detector_spec("ccd", 2, 3))
+    times = [float(t) for t in range(1, n_steps + 1)]
+    case = {"label": "history", "mode": "exp_history", "pipeline": copy.deepcopy(pspec), "edits": []}
+    for run_no in range(rng.randint(2, 4)):
+        if run_no:
+            # mutate the live objects and the specification alike
+            for group, models in pspec.items():
+                for m in models:
+                    if m["func"] != "vf.probes.trace" or rng.random() > 0.4:
+                        continue
+                    live = getattr(getattr(pipe, group), m["name"])
+                    how = rng.choice(["attr", "set", "arg"])
+                    if how == "attr":
+                        m["enabled"] = not m["enabled"]
+                        live.enabled = m["enabled"]
+                    elif how == "set":
+                        m["enabled"] = not m["enabled"]
+                        Processor(detector=detector, pipeline=pipe).set(f"pipeline.{group}.{m['name']}.enabled", m["enabled"])
+                    else:
+                        m["arguments"]["n"] = rng.randint(100, 999)
+                        live.arguments["n"] = m["arguments"]["n"]
+                    case["edits"].append((run_no, group, m["name"], how))
+            if rng.random() < 0.5:
+                repr(pipe), list(pipe), [repr(getattr(pipe, g)) for g in pspec]
+        probes.reset()
+        ctx.mon.reset()
+        try:
+            pyxel.run_mode(mode=Exposure(readout=Readout(times=times)), detector=detector, pipeline=pipe,
+                           debug=rng.random() < 0.3, with_inherited_coords=True)
+        except Exception as exc:  # noqa: BLE001
+            import traceback
+            rec.violation("C01:history:unexpected-exception", f"{type(exc).__name__}: {exc} :: {traceback.format_exc()[-500:]}", case, index)
+            return
+        rec.count("runs_history")
+        evs = probes.events()
+        rec.count("probe_events", len(evs))
+        compare(rec, evs, list(ctx.mon.calls), [build.expected_calls(pspec, n_steps)], False, "C01:history", case, index)
+    rec.observe("modes", "exp_history")
+    rec.case(("history", case["edits"], [(g, [(m["name"], m["enabled"]) for m in ms]) for g, ms in pspec.items()]), True, sample=case)
+
+
 def run_shard(spec, rec):
     ctx = Ctx()
     kind = spec["kind"]
     if kind == "random":
+        for j in range(spec["n"] // 4):
+            idx = 20_000 + j
+            if rec.wanted(idx):
+                run_history_case(rec, ctx, idx, rec.rng(idx))
         for j in range(1 if spec["n"] < 100 else 6):
             idx = 10_000 + j
             if rec.wanted(idx):
